@@ -179,7 +179,7 @@ theorem C03_aperture_model_satisfies_spec (cfg : Scales.Aperture.Cfg) (ops : Lis
   have h' : Scales.LB.wfH cfg ops = true := h
   obtain ⟨hw, hb⟩ := (Scales.LB.wfH_iff cfg ops).1 h'
   exact Scales.LB.specC03A_trace cfg ops _ _ {} 0 (Scales.LB.RInv.init cfg) Scales.LB.HInv_init
-    Scales.LB.Sim3.init (Scales.LB.wf_proto hw) hb
+    Scales.LB.Sim3.init rfl (Scales.LB.GInv.init cfg) (Scales.LB.wf_proto hw) hb
 
 /-! non-vacuity: an aperture of min_size 2 over three members; one request outstanding on node 0; node 1 (the
     root) faults; the next request marks it down inside `__Get`, the hook takes in the idle endpoint 2 as node 2
@@ -194,5 +194,28 @@ example : Scales.LB.comp3A.wf c03ApCfg c03ApHist = true := by decide +kernel
 example : (Scales.LB.runSt c03ApCfg (Scales.LB.init c03ApCfg) c03ApHist).sub.hs.size = 3 ∧
     (Scales.LB.runSt c03ApCfg (Scales.LB.init c03ApCfg) c03ApHist).sub.hs.down = [2, 1] ∧
     (Scales.LB.runSt c03ApCfg (Scales.LB.init c03ApCfg) c03ApHist).sub.idle = [] := by decide +kernel
+
+/-! "requests outstanding" does not include a request that completed before it was dispatched.  A request
+    with a deadline waits for the open result, its deadline passes (`expire 0`: its caller has its
+    TimeoutError); the observations say it was dispatched to node 0 all the same when the open result
+    completed.  Nothing is outstanding on node 0: after one more request to node 1, a request that goes to
+    node 1 again has not gone to a least-loaded open member.  The same observations are accepted when the
+    deadline has not passed (one request outstanding on each node then). -/
+def c03LateObs (res : List Scales.LB.ResV) (load0 load1 : Int) (queued : Nat) : Scales.LB.Obs :=
+  { res := res, heap := if queued == 0 then [⟨0, 0, load0, 1, 0, 2⟩, ⟨1, 1, load1, 2, 0, 2⟩] else [], down := [],
+    off := [], servers := [0, 1], idle := [], pending := [], initDone := queued == 0, blocked := 0,
+    openAr := queued == 0, queued := queued, jitter := false, total := 0, adj := [], gActive := 0, gIdle := 0 }
+
+def c03LateHist (expired : Bool) : List (Scales.LB.Op × Scales.LB.Obs) :=
+  [(.opn, c03LateObs [] 0 0 1), (.getd ⟨[], []⟩, c03LateObs [.queued] 0 0 1)] ++
+  (if expired then [(Scales.LB.Op.expire 0, c03LateObs [] 0 0 1)] else []) ++
+  [(.loaded [0, 1] ⟨[], []⟩, c03LateObs [.node 0 0 0] (Idle + 1) Idle 0),
+   (.chan 0 2, c03LateObs [] (Idle + 1) Idle 0), (.chan 1 2, c03LateObs [] (Idle + 1) Idle 0),
+   (.get ⟨[], []⟩, c03LateObs [.node 1 1 1] (Idle + 1) (Idle + 1) 0),
+   (.get ⟨[], []⟩, c03LateObs [.node 1 1 2] (Idle + 1) (Idle + 2) 0)]
+
+example : Scales.LB.specC03A c03ApCfg (c03LateHist true) =
+    .fail "not-least-loaded" [V.ofNat 7, V.ofNat 1, V.ofNat 1] := by rfl
+example : Scales.LB.specC03A c03ApCfg (c03LateHist false) = .ok := by rfl
 
 end Scales.Heap
